@@ -18,6 +18,17 @@ static Val run_range(const Val &c)
               Range assigned; assigned = copy; return obs(assigned); }
     case 3: { Range r(QString::fromLatin1(c.at(1).asBytes()), c.at(2).asInt()); Range copy(r, c.at(3).asInt());
               Range assigned; assigned = copy; return obs(assigned); }
+    case 4: {   // object history: a range that has been queried is assigned another one and queried again
+        Range a(c.at(1).asInt(), c.at(2).asInt(), c.at(3).asInt());
+        (void)obs(a); (void)obs(a);
+        Range b(c.at(4).asInt(), c.at(5).asInt(), c.at(6).asInt());
+        if (c.at(7).asInt() & 1) (void)obs(b);
+        a = b;
+        Val first = obs(a);
+        Range copy(a, c.at(6).asInt() < 0 ? -1 : c.at(6).asInt());      // and copied once more after the query
+        Val second = obs(copy);
+        return (c.at(7).asInt() & 2) ? second : first;
+    }
     }
     return badcase();
 }
